@@ -42,7 +42,7 @@ BUDGET = {"quick": 85, "thorough": 900}
 ROUNDS = {"thorough": 3}
 FLOORS = {"transitions": {"quick": 4000, "thorough": 40000}, "accepted": {"quick": 800, "thorough": 8000}, "rejected": {"quick": 800, "thorough": 8000},
           "hastings_checked": {"quick": 3000, "thorough": 30000}, "logger_rows": {"quick": 2000, "thorough": 20000}, "tune_calls": {"quick": 1500, "thorough": 15000},
-          "operator_types": 5, "nonfinite_proposals": {"quick": 40, "thorough": 400}, "tune_calls_adaptive_step_size": {"quick": 150, "thorough": 1500}, "adaptive_step_size_modes": 2, "resumed_runs": 2, "hook_records": {"quick": 4000, "thorough": 40000},
+          "operator_types": 5, "momentum_law_cases": 6, "reference_trajectories": {"quick": 1000, "thorough": 10000}, "nonfinite_proposals": {"quick": 40, "thorough": 400}, "tune_calls_adaptive_step_size": {"quick": 150, "thorough": 1500}, "adaptive_step_size_modes": 2, "resumed_runs": 2, "hook_records": {"quick": 4000, "thorough": 40000},
           "accepted:ScalerOperator": 30, "rejected:ScalerOperator": 30, "accepted:SlidingWindowOperator": 30, "rejected:SlidingWindowOperator": 30,
           "accepted:DirichletOperator": 30, "rejected:DirichletOperator": 30, "accepted:HMCOperator": 30, "rejected:HMCOperator": 30,
           "accepted:GMRFPiecewiseCoalescentBlockUpdatingOperator": 30, "rejected:GMRFPiecewiseCoalescentBlockUpdatingOperator": 30}
@@ -74,6 +74,9 @@ def cases(tier, seed):
                 out[-1]["single"] = False
             if ad in ("dual+mass", "adaptive-rate"):
                 out[-1]["resume"] = True
+    # the law of the momentum an HMC move starts from (the forward proposal density behind the Hastings term K0 - K1)
+    for i in range(6 if tier == "quick" else 40):
+        out.append({"target": "momentum-law", "seed": int(rng.integers(2**31)), "dim": int(2 + i % 4), "dense": bool(i % 3 != 2), "draws": 6000})
     return out
 
 
@@ -99,7 +102,7 @@ def target_toy(case, rng):
     spec = [{"id": "dx", "type": "Distribution", "distribution": "torch.distributions.Normal", "x": P("x", rng.normal(0.5, 1, 3).tolist()), "parameters": {"loc": 0.5, "scale": 1.3}},
             {"id": "dy", "type": "Distribution", "distribution": "torch.distributions.Gamma", "x": P("y", np.exp(rng.normal(0, 0.3, 2)).tolist()), "parameters": {"concentration": 2.0, "rate": 1.5}},
             {"id": "ds", "type": "Distribution", "distribution": "torch.distributions.Dirichlet", "x": P("s", rng.dirichlet([3, 3, 3]).tolist()), "parameters": {"concentration": [2.0, 3.0, 4.0]}},
-            {"id": "dz", "type": "MultivariateNormal", "x": P("z", rng.normal(0, 1, 2).tolist()), "parameters": {"loc": P("z.loc", [0.3, -0.2]), "covariance_matrix": P("z.cov", [[1.0, 0.6], [0.6, 1.5]])}},
+            {"id": "dz", "type": "MultivariateNormal", "x": P("z", rng.normal(0, 1, 2).tolist()), "parameters": {"loc": {"id": "z.loc", "type": "ViewParameter", "parameter": "x", "indices": "0:2"}, "covariance_matrix": P("z.cov", [[1.0, 0.6], [0.6, 1.5]])}},
             {"id": "joint", "type": "JointDistributionModel", "distributions": ["dx", "dy", "ds", "dz"]}]
     ops = [op("op.slide", "SlidingWindowOperator", ["x"], rng, case["adapt"], width=float(gm.loguniform(rng, 0.2, 3))),
            op("op.scale", "ScalerOperator", ["y"], rng, case["adapt"], scaler=float(rng.uniform(0.3, 0.9))),
@@ -283,10 +286,48 @@ class RandProxy:
         return getattr(self._real, name)
 
 
+def run_momentum_law(case):
+    """K0 - K1 is the log ratio of reverse to forward proposal densities only if the momentum is drawn from N(0, M) for the very M whose
+    inverse the kinetic energy uses: second moments of many draws of the operator's own sampler against M (6 standard errors)."""
+    import torch
+
+    V = []
+    rng = np.random.default_rng(case["seed"])
+    d, n = case["dim"], case["draws"]
+    spec = [{"id": "dz", "type": "Distribution", "distribution": "torch.distributions.Normal", "x": P("z", rng.normal(0, 1, d).tolist()), "parameters": {"loc": 0.0, "scale": 1.0}},
+            {"id": "joint", "type": "JointDistributionModel", "distributions": ["dz"]},
+            hmc_op("op.hmc", "joint", ["z"], d, rng, False, dense=case["dense"])]
+    objs, dic = tt.load(spec)
+    o = dic["op.hmc"]
+    M = o.mass_matrix.detach().clone()
+    torch.manual_seed(case["seed"] % (2**31))
+    draws = torch.stack([o._hamiltonian.sample_momentum(o.mass_matrix).detach() for _ in range(n)])
+    Mfull = torch.diag(M) if M.dim() == 1 else M
+    S = (draws.T @ draws / n).numpy()
+    mean = draws.mean(0).numpy()
+    Mn = Mfull.numpy()
+    C = {"momentum_law_draws": n, "momentum_law_cases": 1, "transitions": 0, "accepted": 0, "rejected": 0, "hastings_checked": 0, "logger_rows": 0, "tune_calls": 0, "hook_records": 0,
+         "operator_types": []}
+    worst = 0.0
+    for i in range(d):
+        if abs(mean[i]) > 6 * math.sqrt(Mn[i, i] / n):
+            V.append(tt.viol("C15:hmc-momentum-law:mean", "HMC momentum: mean of %d draws of component %d is %.4g (standard error %.3g)" % (n, i, mean[i], math.sqrt(Mn[i, i] / n)), case=case))
+            break
+        for j in range(d):
+            se = math.sqrt((Mn[i, i] * Mn[j, j] + Mn[i, j] ** 2) / n)
+            worst = max(worst, abs(S[i, j] - Mn[i, j]) / se)
+    if not V and worst > 6:
+        V.append(tt.viol("C15:hmc-momentum-law:covariance", "HMC momentum (%s mass matrix, dimension %d): the second moments of %d draws differ from the mass matrix by %.1f standard errors: %s vs %s; the kinetic energy in the Hastings term uses the inverse of the mass matrix" % (
+            "dense" if case["dense"] else "diagonal", d, n, worst, np.round(S, 3).tolist(), np.round(Mn, 3).tolist()), case=case))
+    return {"violations": V, "counters": C, "fingerprint": "momentum|%d|%s|%d" % (d, case["dense"], case["seed"]), "sample": None}
+
+
 def run_case(case):
     import torch
     import torchtree.inference.mcmc.mcmc as mcmc_mod
 
+    if case["target"] == "momentum-law":
+        return run_momentum_law(case)
     V = []
     rng = np.random.default_rng(case["seed"])
     t = case["target"]
@@ -446,6 +487,8 @@ def install(o, dic, cur, torch, carried=None):
 
         class Wrapped(type(integ)):
             def __call__(self_, model, parameters, momentum, inv):
+                cur["rec"]["leapfrog"] = {"step_size": float(self_.step_size), "steps": int(self_.steps), "ids": [q.id for q in parameters],
+                                          "start": [q.tensor.detach().clone() for q in parameters]}
                 out = orig_call(self_, model, parameters, momentum, inv)
                 cur["rec"].setdefault("momenta1", []).append(out.detach().clone())
                 cur["rec"]["inverse_mass"] = inv.detach().clone()
@@ -518,6 +561,51 @@ def check_records(case, dic, shadow, spec, records, meta, V, C, torch):
             # whatever the size of the energy error - the accept step decides on it
             V.append(tt.viol("C15:hastings-ratio:HMCOperator:infinite-for-a-completed-trajectory", "%s: step() returned an infinite Hastings term although the trajectory completed; K(p0) - K(p1) = %.6g" % (where, ref_hr), **detail))
             return
+        if tname == "HMCOperator" and ref_hr is not None and not inf_hr and "leapfrog" in r and all(i in shadow for i in r["leapfrog"]["ids"]):
+            # the proposal is the leapfrog map of the *current* target: an independent integration on a freshly evaluated copy of the
+            # target, from the same start and momentum, must arrive at the proposed point with the returned momentum
+            lf = r["leapfrog"]
+            set_leaves(shadow, r["before"])
+            sizes = [int(t.numel()) for t in lf["start"]]
+
+            def grad_logp(qvec):
+                parts, st = [], 0
+                for i, nn in zip(lf["ids"], sizes):
+                    t = qvec[st:st + nn].clone().requires_grad_()
+                    shadow[i].tensor = t
+                    parts.append(t)
+                    st += nn
+                lp = shadow["joint"]()
+                g = torch.autograd.grad(lp.sum(), parts)
+                return torch.cat([x.reshape(-1) for x in g])
+
+            inv = r["inverse_mass"]
+            mv = (lambda pp: inv * pp) if inv.dim() == 1 else (lambda pp: inv @ pp)
+            qv = torch.cat([t.reshape(-1) for t in lf["start"]])
+            pv = r["momenta0"][-1].clone()
+            eps = lf["step_size"]
+            try:
+                g = grad_logp(qv)
+                pv = pv + eps / 2 * g
+                for _ in range(lf["steps"]):
+                    qv = qv + eps * mv(pv)
+                    g = grad_logp(qv)
+                    pv = pv + eps * g
+                pv = pv - eps / 2 * g
+                ok_traj = True
+            except Exception:
+                ok_traj = False  # the copy cannot be evaluated along the way (support left): nothing to compare
+            for i, t0 in zip(lf["ids"], lf["start"]):
+                shadow[i].tensor = t0.clone()
+            if ok_traj:
+                C["reference_trajectories"] = C.get("reference_trajectories", 0) + 1
+                qlib = torch.cat([t.reshape(-1) for t in r["op_proposed"]])
+                plib = r["momenta1"][-1]
+                scale = max(1.0, float(qv.abs().max()), float(pv.abs().max()))
+                if bool(torch.isfinite(qv).all()) and (float((qlib - qv).abs().max()) > 1e-7 * scale or float((plib - pv).abs().max()) > 1e-7 * scale):
+                    V.append(tt.viol("C15:hmc-proposal-not-the-leapfrog-map-of-the-current-target", "%s: proposed point differs from an independent leapfrog integration of the current target from the same start and momentum (max |dq| %.3g, max |dp| %.3g): the Hastings term K0-K1 is not the proposal ratio" % (
+                        where, float((qlib - qv).abs().max()), float((plib - pv).abs().max())), **detail))
+                    return
         if ref_hr is not None and not inf_hr:
             C["hastings_checked"] += 1
             tol = 1e-6 if tname.startswith("GMRF") else 1e-9
